@@ -3,6 +3,7 @@
 #![allow(dead_code, unused_imports)]
 use super::*;
 use crate::vk;
+use crate::report::eval::{PostingAmount, SingleAmount};
 use crate::{vk_cover, vk_proof, vk_proof_models};
 
 fn any_date() -> NaiveDate {
@@ -144,10 +145,60 @@ vk_proof_models! { unwind 6; fn c04_add_amount_kernel() {
     core::mem::forget(bal);
 } }
 
+/// C04 kernel (quick tier): the incremental ("raw") balance is also written by balance *assignments*
+/// (`A = e X` without amount -> Balance::set_partial). From an arbitrary account balance over {X, Y}:
+/// the returned previous value is what was held in X, the account is left at exactly e X, Y is untouched,
+/// and - like the re-fold path - no zero entry is kept, so the whole-history report agrees with the
+/// range-recomputed one and never shows a zero commodity. Bare `= 0` empties the account.
+vk_proof_models! { unwind 6; fn c04_set_partial_kernel() {
+    let a = dec16(0);
+    let b = dec16(0);
+    let e = dec16(0);
+    let bare = vk::bool();
+    let acc = account(0);
+    let (x, y) = (commodity(0), commodity(1));
+    let mut bal = Balance::default();
+    bal.add_amount(acc, Amount::from_value(a, x));
+    bal.add_amount(acc, Amount::from_value(b, y));
+    vk::note(&|| format!("pre A: {} X, {} Y; assignment {}", a, b, if bare { "= 0".to_string() } else { format!("= {} X", e) }));
+    if bare {
+        let r = bal.set_partial(acc, PostingAmount::Zero);
+        let multi = !a.is_zero() && !b.is_zero();
+        match &r {
+            Err(_) => assert!(multi, "C04/C03: `= 0` rejected on an account holding at most one commodity"),
+            Ok(prev) => {
+                assert!(!multi, "C04/C03: `= 0` accepted on an account holding several commodities");
+                let want = if !a.is_zero() { PostingAmount::Single(SingleAmount::from_value(a, x)) }
+                    else if !b.is_zero() { PostingAmount::Single(SingleAmount::from_value(b, y)) } else { PostingAmount::Zero };
+                assert!(*prev == want, "C04/C03: previous balance returned by `= 0`");
+                let after = bal.get(&acc).expect("account present");
+                assert!(crate::report::eval::verif_kani::amount_verif::n_entries(after) == 0, "C04: account not empty after `= 0`");
+            }
+        }
+        core::mem::forget(r);
+    } else {
+        let r = bal.set_partial(acc, PostingAmount::Single(SingleAmount::from_value(e, x)));
+        match &r {
+            Ok(PostingAmount::Single(prev)) => assert!(prev.value == a && prev.commodity == x, "C04/C03: previous balance returned by the assignment"),
+            _ => panic!("C04/C03: single-commodity assignment rejected"),
+        }
+        let after = bal.get(&acc).expect("account present");
+        let (gx, hx) = part(after, x);
+        let (gy, hy) = part(after, y);
+        assert!(gx == e && gy == b, "C04/C03: the account is not left at the assigned value (or another commodity changed)");
+        assert!(hx == !e.is_zero() && hy == !b.is_zero(), "C04: a commodity with zero total is shown after an assignment (or a non-zero one dropped)");
+        core::mem::forget(r);
+    }
+    vk_cover!(!bare && e.is_zero() && !a.is_zero() && !b.is_zero(), "assignment to a commoditised zero on a two-commodity account");
+    vk_cover!(bare && !a.is_zero() && b.is_zero(), "bare zero on a single-commodity account");
+    core::mem::forget(bal);
+} }
+
 #[cfg(all(test, not(kani)))]
 #[test]
 fn verif_replay_entry() {
     crate::vk::replay_dispatch(&[
+        ("c04_set_partial_kernel", c04_set_partial_kernel as fn()),
         ("c04_date_range_contains", c04_date_range_contains as fn()),
         ("c04_add_amount_kernel", c04_add_amount_kernel as fn()),
         ("c04_balance_range_1", c04_balance_range_1 as fn()),
